@@ -27,7 +27,7 @@ type c13Case struct {
 	Perturb []string   `json:"perturb"` // match mode: drop:<name> | add:<name> | digest:<name>
 }
 
-var c13Contents = []string{"", "plain text\n", "a\r\nb\r\n", "cr only\rnext\r", "mixed\r\n\r\r\n\n", "\x00\x01\x02binary\xff\r\n\x00", "no newline", "\r", "\n", "\r\n"}
+var c13Contents = []string{"@REPEAT:20000:ab\r\n@", "x@REPEAT:20000:ab\r\n@", "xy@REPEAT:9000:line\r\n@", "xyz@REPEAT:40000:\r\n@", "@REPEAT:40000:\r\n@", "@REPEAT:70000:\r@", "", "plain text\n", "a\r\nb\r\n", "cr only\rnext\r", "mixed\r\n\r\r\n\n", "\x00\x01\x02binary\xff\r\n\x00", "no newline", "\r", "\n", "\r\n"}
 
 func c13Gen(t *rapid.T) c13Case {
 	dirs := []string{"", "sub", "sub/deep", "sub/deep/er", "other", "a", "b"}
@@ -262,6 +262,9 @@ func c13Run(c c13Case, r *hx.Rec) error {
 		}
 		if strings.Contains(n.Content, "\r") {
 			hasCR = true
+		}
+		if strings.Contains(n.Content, "@REPEAT:") {
+			r.Label("large-file")
 		}
 	}
 	r.Label("mode=%s", c.Mode)
